@@ -146,6 +146,18 @@ def judge(name, cuts, out, meta, K, resumable, viol, stats):
                              dict(w, attempt=a, tail=[{k2: e.get(k2) for k2 in ("ev", "tag", "name", "xml", "text") if e.get(k2)} for e in evs if e["ev"] in ("srv_rx", "srv_tx", "cli_sig", "await_failed")][-12:])))
             else:
                 stats["reconnect_ok"] += 1
+    # "completes or retains (only when resumable)": a request retained across a resumable loss must be completed once a session is
+    # established that is not a resumption of the one it was sent on (the server in these scripts always refuses <resume/>)
+    for m in meta:
+        if m["established"] and m["cut"] is not None and resumable:
+            later = [m2["attempt"] for m2 in meta if m2["attempt"] > m["attempt"] and m2["established"]]
+            if later:
+                b = later[0]
+                dn = [e for a2 in range(m["attempt"], b + 1) for e in att.get(a2, []) if e["ev"] == "iq_done" and e["req"] == "req-%d" % m["attempt"]]
+                stats["retained_requests_followed"] += 1
+                if not dn:
+                    viol.append(("request-survives-into-new-session script=%s" % name, "a request retained across a resumable connection loss is still pending after a session was established that is not a resumption (resume refused, fresh bind)",
+                                 dict(w, attempt=m["attempt"], new_session_attempt=b)))
     # every request completes exactly once by the end
     for m in meta:
         if m["established"]:
@@ -209,5 +221,5 @@ def main(tier, replay=None):
                    "consecutive cut attempts%s, always followed by a clean attempt; after each cut the public state getters are read, 'connected' emissions are counted per attempt, and the clean attempt must answer every step of the script and end connected; "
                    "all runs are distinct (script, cut tuple)" % (", ".join(SCRIPTS), sizes, "" if tier == "quick" else ", plus all triples for the two longest scripts"),
            "exhaustive": True, "observed": dict(stats), "samples": [{"script": "sasl-bind-sm-resumable", "cuts": [3, 12]}]}
-    floors = {"runs": stats["runs"] > 500, "cuts": stats["cuts"] > 500, "reconnect_ok": stats["reconnect_ok"] > 0, "requests_ok": stats["requests_ok"] > 0}
+    floors = {"retained_requests_followed": stats["retained_requests_followed"] > 0, "runs": stats["runs"] > 500, "cuts": stats["cuts"] > 500, "reconnect_ok": stats["reconnect_ok"] > 0, "requests_ok": stats["requests_ok"] > 0}
     V.finish(cov, "fault_enumeration", ["the fault is a TCP reset/close by the server on loopback; half-open connections and timeouts are not injected", "a refused resumption is always followed by a fresh bind (accepted resumption is exercised in C07/C09/C12)"], floors)
